@@ -377,20 +377,13 @@ def acquisition_loop(rep, rule, f, table_suffix, refresh_suffix):
     if not rep.floor(rule, 'inserts into %s in %s' % (table_suffix, lib.short(f.name)), len(ins), 1):
         return
     rep.analysed(f)
-    dom = A.dominators(f)
     refresh = {w[0] for w in A.field_writes(f) if w[2].endswith(refresh_suffix)}
-    cutb = {c.bb for c in ins} | refresh
+    dom = A.dominators(f)
     for k, c in enumerate(ins):
-        after = A.reachable(f, [c.target] if c.target is not None and c.target >= 0 else [])
-        heads = [x for x in A.calls(f) if (re.search(r'Iterator>?::next$', x.generic) or re.search(r'Iterator>?::next$', x.resolved)) and x.bb in dom[c.bb]
-                 and x.bb in after]
-        if not heads:
+        if not any((re.search(r'Iterator>?::next$', x.generic) or re.search(r'Iterator>?::next$', x.resolved)) and x.bb in dom[c.bb] for x in A.calls(f)):
             rep.holds(rule, f, 'insert#%d' % k, 'not in a loop')
             continue
-        h = max(heads, key=lambda x: len(dom[x.bb]))
-        R = A.reachable(f, [h.target] if h.target is not None and h.target >= 0 else A.succs(f, h.bb), cut_blocks=cutb | {h.bb})
-        # can the loop head be re-entered from inside the body without the insert?  (the exit edge leaves the loop and never returns to h)
-        if any(h.bb in A.succs(f, b_) for b_ in R):
+        if lib.loop_iterations_skipping(f, c, also={x.bb for x in ins} | refresh) is not None:
             rep.violation(rule, f, 'row-skipped-in-acquisition', f.loc(c.line),
                           'the acquisition loop can move on to the next key without inserting a lock entry for the current one: the key '
                           'is treated as locked although its entry may have expired, and another transaction can take it')
